@@ -121,14 +121,17 @@ Print Assumptions C12_cost_quadratic_generated.
 
 (* the same for the environment regenerated from /repo; type-checks only while the translator finds no access to the
    variable context (self._context, self[...]) in prog/_expr/_factor/_read_fn_args/_apply_adverbs, in any method they call,
-   and in read_cond/read_expr_array: the model's parser has no variable context at all *)
+   and in read_cond/read_expr_array (the model's parser has no variable context at all), and while the parse cache of
+   KlongInterpreter.__call__ is keyed by the submitted text itself, unmodified, which is also the text that is parsed
+   (a program is a function of (text, module): a cache keyed by anything coarser than the text is not sound) *)
 Theorem C12_parse_repeatable_generated :
-  parser_does_not_read_variables = true /\
+  parser_does_not_read_variables = true /\ parse_cache_key_is_exact_text = true /\
   forall m t f1 f2, (f1 >= fuel_for (length t))%nat -> (f2 >= fuel_for (length t))%nat ->
   prog (env_with_module genv m) f1 t = prog (env_with_module genv m) f2 t /\ prog (env_with_module genv m) f1 t <> OOF.
 Proof.
   exact (conj (eq_refl : parser_does_not_read_variables = true)
-              (fun m => prog_fuel_irrelevant_module genv m (eq_refl : z_in 59 (delims genv) = true) (eq_refl : comment_guard genv = true))).
+        (conj (eq_refl : parse_cache_key_is_exact_text = true)
+              (fun m => prog_fuel_irrelevant_module genv m (eq_refl : z_in 59 (delims genv) = true) (eq_refl : comment_guard genv = true)))).
 Qed.
 Print Assumptions C12_parse_repeatable_generated.
 
